@@ -168,5 +168,35 @@ func c09(c *Ctx) {
 			c.MustFact(j, "lb-metadata-validated", vMD)
 		}
 	})
+	c.Ob("pending-metadata-not-aliased", "R8", "server: header/trailer metadata kept for a later flush is a copy (metadata.Join) of what the handler passed, never the handler's own map; the handler's map is used directly only when it is flushed within the same critical section", 3, func() {
+		n := 0
+		for _, fname := range []string{"header", "trailer"} {
+			owner := "ServerStream"
+			if fname == "trailer" {
+				owner = "Stream"
+			}
+			fv := c.field(tr, owner, fname)
+			for _, f := range c.scope(tr) {
+				if top := shortName(topFunc(f)); strings.Contains(top, "http2Client") || strings.Contains(top, "ClientStream") {
+					continue // the client stores metadata it parsed itself from the wire
+				}
+				for _, st := range storesToField(f, fv) {
+					n++
+					c.inst("pending " + fname + " store <- " + c.siteStr(st))
+					if AllOrigins(CallRes(Callee("metadata", "Join"), 0))(st.Val) {
+						continue
+					}
+					// direct use of the caller's map: must be flushed before the function returns
+					if shortName(f) == tr+".http2Server.writeHeader" {
+						q := pathQuery{Fn: f, Starts: []ssa.Instruction{st}, Barrier: isCallTo(Callee(tr, "http2Server.writeHeaderLocked")), Target: isReturn}
+						c.MustPass("caller-map-flushed-at-once", q, st)
+						continue
+					}
+					c.violate(st, f, "aliases-handler-metadata", "pending server "+fname+" metadata aliases a map owned by the caller (later mutations by the handler would change what is sent)", nil)
+				}
+			}
+		}
+		c.Expect(n >= 3, nil, nil, "pending-metadata-sites", "fewer pending-metadata stores than confirmed by hand")
+	})
 	_ = types.Typ
 }
